@@ -201,6 +201,10 @@ class Generator(CodeGenerator):
         output_builder.with_file("rpc.h", "rpc.h.j2", {"fcp": fcp})
 
         for protocol in fcp.get_protocols():
+            # fcp.h already holds the default protocol and "default" is not a valid namespace name
+            if protocol == "default":
+                continue
+
             output_builder.with_file(
                 "fcp_" + protocol + ".h",
                 "fcp.h.j2",
